@@ -33,12 +33,13 @@ pub fn read_input_file_and_xsd_files_at_path(current_file: &Path) -> WriterResul
         let entry = entry?;
         let path = entry.path();
         if path.is_file() && path.extension().unwrap_or_default() == "xsd" && !current_file.eq(&path) {
-            let file_name = path
-                .file_name()
-                .ok_or(WriterError::PathNotFound)?
-                .to_str()
-                .ok_or(WriterError::PathNotFound)?;
-            let xml = std::fs::read_to_string(&path)?;
+            // a sibling whose name or content is not UTF-8 text cannot be imported by name; it must not keep the others from being read
+            let Some(file_name) = path.file_name().and_then(|name| name.to_str()) else {
+                continue;
+            };
+            let Ok(xml) = std::fs::read_to_string(&path) else {
+                continue;
+            };
             files.add(file_name, xml);
         }
     }
